@@ -97,6 +97,11 @@ class ContainerBase:
     def mk_copy(self, copy_node: bool = False) -> ContainerBase:
         """Make a copy of self."""
         copied = copy.copy(self)
+        # copy the values deeply, otherwise the copy shares nested objects (e.g. MetricValue, lists) with self
+        for prop_name, cprop in self.sorted_container_properties():
+            value = cprop.get_actual_value(self)
+            if value is not None:
+                setattr(copied, prop_name, copy.deepcopy(value))
         if copy_node and self.node is not None:
             copied.node = xml_utils.copy_element(self.node)
         return copied
